@@ -26,6 +26,36 @@ CHECKS["C03"] = {
     "technique": TECH + "dimension-kind contradiction analysis (Engler-style), polarity/co-index/full-range templates, per-operation definitional patterns",
 }
 
+CHECKS["C13"] = {
+    "category": "other",
+    "text": "Proof-style obligations on single-path arithmetic bodies: each of the 14 operator/identity bodies equals the field formula as a rational "
+            "function over Q (exact field arithmetic for exact element types); each of the 8 compound-assignment bodies, expanded statement by statement, "
+            "is the same expression tree as its binary form modulo commutativity of + and * only (hence bit-identical IEEE results); no stale read of an "
+            "overwritten component; eq is the component conjunction, partial_cmp is lexicographic; abs = sqrt(abs_sqr), arg = atan2(imag, real).",
+    "design_ref": "DESIGN.md §3 C13",
+    "note": "Trait calls on T are interpreted as ring operations. Not decided: rounding-error size over f64, trichotomy/transitivity on NaN-free values "
+            "(properties of f64's own ordering). Trusted: rustc typeck, the rule engine's symbolic executor and polynomial normal form.",
+    "technique": TECH + "value numbering of straight-line bodies + polynomial/commutative normal-form comparison",
+}
+CHECKS["C16"] = {
+    "text": "For every (len, T>=1): the chunk bounds extracted from dot_f64 satisfy start_0 = 0, end_i = start_(i+1), end_(T-1) = len as polynomial "
+            "identities (the chunks tile 0..len exactly once); both operands use the same window; the worker closure captures only &[f64], calls only "
+            "slice len/index and f64 arithmetic and returns by value (no unsafe in the crate: schedule-free); handles are joined in spawn order into one accumulator; "
+            "sizes are compared first; T = num_cpus::get() is used unmodified.",
+    "design_ref": "DESIGN.md §3 C16",
+    "note": "Trusted: num_cpus::get() >= 1, thread::scope joins all threads, (T-1)*floor(len/T) <= len. Not decided: the size of the re-association error.",
+    "technique": TECH + "symbolic chunk-bound identities, closure capture modes from typeck, callee-set purity, ordered-reduction pattern",
+}
+CHECKS["C17"] = {
+    "text": "For all six Newton variants, for every user function: &self receiver over Freeze state without unsafe (configuration and guess cannot change); "
+            "no hidden state read; the only loop is for _ in 0..self.max_iter and every reachable loop is a bounded for with an acyclic call graph; "
+            "closure call sites per iteration counted; the only Ok is inside the loop behind the stopping test and carries the iterate; the fall-through "
+            "is Err(current); the step is f/f' (central difference with self.delta) resp. the solve_basic solution with the Jacobian at current.",
+    "design_ref": "DESIGN.md §3 C17",
+    "note": "Not decided: Ok => within O(tol) of the root (a theorem about Newton's method and floating point). Assumes a deterministic user closure.",
+    "technique": TECH + "receiver/Freeze typing proof, loop-shape and call-graph termination analysis, control-dependence of Ok on the stopping test",
+}
+
 NOT_APPLICABLE = {
 }
 for _i in range(1, 21):
